@@ -810,6 +810,13 @@ func c12PeerUnicast(c *vf.Case, ioc *sonic.IO, p *multicast.UDPPeer) {
 		return
 	}
 	defer syscall.Close(peer)
+	// a second destination on the same address, another port: consecutive writes alternate between the two
+	peer2, pport2, err := rawpeer.UDP4(ip)
+	if err != nil {
+		c.Failf("harness-setup", "%v", err)
+		return
+	}
+	defer syscall.Close(peer2)
 	gen := r.U64()
 	for i := 0; i < r.Range(3, 20) && !c.Failed(); i++ {
 		n := []int{1, 2, 1472, 1473, 8192, 65507}[r.Intn(6)]
@@ -849,7 +856,11 @@ func c12PeerUnicast(c *vf.Case, ioc *sonic.IO, p *multicast.UDPPeer) {
 			}
 			c.Count("datagrams_verified", 1)
 		} else {
-			to := netip.AddrPortFrom(netip.AddrFrom4(ip), uint16(pport))
+			dstFd, dstPort, otherFd := peer, pport, peer2
+			if r.Bool() {
+				dstFd, dstPort, otherFd = peer2, pport2, peer
+			}
+			to := netip.AddrPortFrom(netip.AddrFrom4(ip), uint16(dstPort))
 			calls := 0
 			var werr error
 			var wn int
@@ -872,12 +883,16 @@ func c12PeerUnicast(c *vf.Case, ioc *sonic.IO, p *multicast.UDPPeer) {
 			rb := make([]byte, 70000)
 			rn := -1
 			for t := 0; t < 1000; t++ {
-				k, _, err := syscall.Recvfrom(peer, rb, 0)
+				k, _, err := syscall.Recvfrom(dstFd, rb, 0)
 				if err == nil {
 					rn = k
 					break
 				}
-				rawpeer.WaitReadable(peer, 2)
+				if k2, _, err2 := syscall.Recvfrom(otherFd, rb, 0); err2 == nil {
+					c.Failf("datagram-written-to-wrong-destination", "a %d-byte peer write addressed to port %d arrived (%d bytes) at the other port of the same address", len(d), dstPort, k2)
+					return
+				}
+				rawpeer.WaitReadable(dstFd, 2)
 			}
 			if rn != len(d) || !bytes.Equal(rb[:rn], d) {
 				c.Failf("datagram-written-differs", "peer wrote %d bytes, the destination received %d", len(d), rn)
